@@ -229,6 +229,14 @@ def run_h1(ctx, p):
     amp = abs(Tb - T0) + 1e-300
     triv = sc <= 1e-7 * amp * al / b ** 2
     ctx.observe("heat.pde", "Hutchens1", True if triv else ok, branch="interior", measure=res, tol=1e-5, detail=det, nontrivial=not triv)
+    # the same derivative from two one-point calls a millionth of the radius apart on the same object (a user's own
+    # finite difference): must agree with the stencil value
+    hs = 1e-6 * b
+    Tp, Tmn = T1d(ctx, s, [r0 + hs], t)[0], T1d(ctx, s, [r0 - hs], t)[0]
+    d_small = (Tp - Tmn) / (2 * hs)
+    scale_d = max(abs(Tr1), amp / b * 1e-3)
+    ctx.observe("heat.pde", "Hutchens1", abs(d_small - Tr1) <= 1e-4 * scale_d + 10 * e1 + 1e-9 * amp / hs, branch="dT/dr from two one-point calls 1e-6 b apart",
+                measure=abs(d_small - Tr1) / scale_d, tol=1e-4, detail=dict(det, small_step=float(d_small), stencil=float(Tr1)), nontrivial=abs(Tr1) > 1e-6 * amp / b)
     Tsurf = T1d(ctx, s, [b], t)[0]
     ctx.observe("heat.bc", "Hutchens1", abs(Tsurf - Tb) <= 1e-9 * max(abs(Tb), amp), branch="T(b)=Tb", measure=abs(Tsurf - Tb) / amp, tol=1e-9, detail=det)
     ti = 1e-6 * b * b / al
